@@ -1227,3 +1227,223 @@ fn outcome(min: u64) -> Outcome {
         extra,
     }
 }
+
+// ------------------------------------------------------------------ C06, located diagnostics
+//
+// One option with a malformed value in an otherwise clean declaration: the derive must answer with
+// diagnostics only, and at least one of them must be built from the tokens of that option
+// ("compile-error diagnostics built from the offending tokens").
+
+fn malformed_field() -> Vec<Occ> {
+    vec![
+        occ("rename", "rename = 5", true),
+        occ("rename", "rename(x)", true),
+        occ("rename", "rename", true),
+        occ("default", "default(x)", true),
+        occ("default", "default = 5", true),
+        occ("with", "with = 5", true),
+        occ("with", "with", true),
+        occ("with", "with(x)", true),
+        occ("skip", "skip = \"maybe\"", true),
+        occ("skip", "skip(x)", true),
+        occ("skip", "skip = 3", true),
+        occ("map", "map = 5", true),
+        occ("map", "map", true),
+        occ("and_then", "and_then(x)", true),
+        occ("multiple", "multiple = 3", true),
+        occ("multiple", "multiple(x)", true),
+        occ("flatten", "flatten = true", true),
+        occ("flatten", "flatten(x)", true),
+    ]
+}
+
+fn malformed_variant() -> Vec<Occ> {
+    vec![
+        occ("rename", "rename = 5", true),
+        occ("rename", "rename", true),
+        occ("skip", "skip = 3", true),
+        occ("skip", "skip(x)", true),
+        occ("word", "word = \"x\"", true),
+        occ("word", "word(x)", true),
+    ]
+}
+
+fn malformed_container(tr: Tr) -> Vec<Occ> {
+    let mut v = vec![
+        occ("rename_all", "rename_all = \"NoSuchCase\"", true),
+        occ("rename_all", "rename_all = 5", true),
+        occ("rename_all", "rename_all", true),
+        occ("rename_all", "rename_all(x)", true),
+        occ("default", "default(x)", true),
+        occ("default", "default = 5", true),
+        occ("map", "map", true),
+        occ("map", "map = 5", true),
+        occ("and_then", "and_then(x)", true),
+        occ("bound", "bound = 5", true),
+        occ("bound", "bound", true),
+        occ("bound", "bound = \"not a predicate ((\"", true),
+        occ("allow_unknown_fields", "allow_unknown_fields = \"x\"", true),
+        occ("allow_unknown_fields", "allow_unknown_fields(x)", true),
+    ];
+    if tr == Tr::Meta {
+        v.push(occ("from_word", "from_word", true));
+        v.push(occ("from_word", "from_word = 5", true));
+        v.push(occ("from_none", "from_none(x)", true));
+    }
+    if tr.element_level() {
+        v.push(occ("attributes", "attributes", true));
+        v.push(occ("attributes", "attributes = 5", true));
+        v.push(occ("attributes", "attributes(x = 1)", true));
+        v.push(occ("attributes", "attributes(\"lit\")", true));
+        v.push(occ("forward_attrs", "forward_attrs = 5", true));
+        v.push(occ("forward_attrs", "forward_attrs(x = 1)", true));
+        v.push(occ("from_ident", "from_ident = 3", true));
+        v.push(occ("from_ident", "from_ident(x)", true));
+    }
+    if matches!(tr, Tr::DeriveInput | Tr::Variant) {
+        v.push(occ("supports", "supports", true));
+        v.push(occ("supports", "supports = 5", true));
+    }
+    v
+}
+
+fn judge_malformed(d: &Decl, bad: R, what: &str, c: &mut Collector) {
+    let Ok(di) = syn::parse_str::<syn::DeriveInput>(&d.src) else {
+        c.discarded += 1;
+        return;
+    };
+    c.eval();
+    let name = d.tr.name();
+    let witness = json!({"input": d.src, "derive": name, "malformed_option": what, "range": bad});
+    let out = match catch(|| (d.tr.derive())(&di)) {
+        Caught::Ok(ts) => ts,
+        Caught::Panic { msg, loc } => {
+            c.violation(format!("C06:panic:{}", vfcommon::short_loc(&loc)), format!("derive({name}) panicked on `{}`: {msg}", d.src), witness);
+            return;
+        }
+    };
+    let cl = match classify(out, name) {
+        Ok(cl) => cl,
+        Err(e) => {
+            c.violation("C06:unparsable-output", format!("derive({name}) on `{}`: {e}", d.src), witness);
+            return;
+        }
+    };
+    let optname = what.split(|ch: char| !(ch.is_alphanumeric() || ch == '_')).next().unwrap_or("").to_string();
+    if !cl.impls.is_empty() && !cl.errors.is_empty() {
+        c.violation("C06:malformed:impl-and-diagnostics", format!("derive({name}) on `{}` returns an impl together with diagnostics", d.src), witness);
+    } else if cl.errors.is_empty() {
+        // the property allows an implementation as the answer; which spellings are tolerated is recorded
+        if cl.impls.len() != 1 {
+            c.violation("C06:malformed:no-impl-no-diagnostic", format!("derive({name}) on `{}` returns {} impls and no diagnostic", d.src, cl.impls.len()), witness);
+        }
+        c.count(&format!("tolerated.{}", what.replace(' ', "")));
+    } else if !cl.errors.iter().any(|(_, sp)| matches!(sp, Some(s) if within(*s, bad))) {
+        c.violation(
+            format!("C06:malformed:diagnostic-not-at-the-option:{optname}"),
+            format!("derive({name}) on `{}`: no diagnostic is built from the tokens of `{what}` {:?}; diagnostics: {:?}", d.src, bad, cl.errors),
+            witness,
+        );
+    }
+    c.count(&format!("malformed.{optname}"));
+    c.nontrivial(&(d.tr, what.to_string()));
+}
+
+/// C06's second part: every malformed option value, on every derive that knows the option, alone
+/// in a clean declaration and next to one well-formed option before or after it.
+pub fn run_malformed(args: &Args) -> i32 {
+    let started = Instant::now();
+    let c = fan_out(args, 10, 1, |w, _rng, _share, c| {
+        if w != 0 {
+            return;
+        }
+        for tr in ALL_TR {
+            // field level
+            for bad in malformed_field() {
+                for neighbour in [None, Some((true, occ("rename", "rename = \"other\"", true))), Some((false, occ("multiple", "multiple = false", false)))] {
+                    if let Some((_, n)) = &neighbour {
+                        if n.name == bad.name {
+                            continue;
+                        }
+                    }
+                    let mut attrs = vec![bad.clone()];
+                    match &neighbour {
+                        Some((true, n)) => attrs.insert(0, n.clone()),
+                        Some((false, n)) => attrs.push(n.clone()),
+                        None => {}
+                    }
+                    let mut f = plain_field("a");
+                    let bad_idx = attrs.iter().position(|o| o.text == bad.text).unwrap();
+                    f.attrs = vec![attrs];
+                    let mut d = Decl {
+                        tr,
+                        cattrs: if tr == Tr::Attributes { vec![vec![occ("attributes", "attributes(x)", true)]] } else { vec![] },
+                        generics: String::new(),
+                        body: Body::Named(vec![f, plain_field("b")]),
+                        src: String::new(),
+                    };
+                    render(&mut d);
+                    let Body::Named(fs) = &d.body else { unreachable!() };
+                    let r = fs[0].attrs[0][bad_idx].range;
+                    judge_malformed(&d, r, &bad.text, c);
+                }
+            }
+            // container level
+            for bad in malformed_container(tr) {
+                for before in [false, true] {
+                    let mut group = vec![bad.clone()];
+                    if before {
+                        group.insert(0, occ("allow_unknown_fields", "allow_unknown_fields", true));
+                        if bad.name == "allow_unknown_fields" {
+                            continue;
+                        }
+                    }
+                    let mut cattrs = vec![group];
+                    if tr == Tr::Attributes && bad.name != "attributes" {
+                        cattrs.push(vec![occ("attributes", "attributes(x)", true)]);
+                    }
+                    let mut d = Decl {
+                        tr,
+                        cattrs,
+                        generics: String::new(),
+                        body: Body::Named(vec![plain_field("a")]),
+                        src: String::new(),
+                    };
+                    render(&mut d);
+                    let r = d.cattrs[0].iter().find(|o| o.text == bad.text).unwrap().range;
+                    judge_malformed(&d, r, &bad.text, c);
+                }
+            }
+        }
+        // variant level (derive(FromMeta) on an enum)
+        for bad in malformed_variant() {
+            let mut d = Decl {
+                tr: Tr::Meta,
+                cattrs: vec![],
+                generics: String::new(),
+                body: Body::Enum(vec![
+                    VariantSpec { name: "First".into(), attrs: vec![vec![bad.clone()]], body: VBody::Unit, range: (0, 0) },
+                    VariantSpec { name: "Second".into(), attrs: vec![], body: VBody::Unit, range: (0, 0) },
+                ]),
+                src: String::new(),
+            };
+            render(&mut d);
+            let Body::Enum(vs) = &d.body else { unreachable!() };
+            let r = vs[0].attrs[0][0].range;
+            judge_malformed(&d, r, &bad.text, c);
+        }
+    });
+    conclude(
+        args,
+        started,
+        c,
+        Outcome {
+            level: "exploration",
+            rule: "every malformed value of every derive option (wrong literal kind, wrong meta form, missing value, unparsable string; 18 field, 6 variant, 14..27 container spellings), alone or next to one well-formed option, in an otherwise clean declaration, for each derive that knows the option: the output is either exactly one impl (the spelling is tolerated: counted, not judged) or diagnostics only, and then at least one diagnostic's span must lie inside the malformed option's own tokens. Distinct = (derive, spelling).".into(),
+            assumptions: vec!["which values are malformed is taken from the option's documented type (string, path, bool, word-only flag, list of words)".into()],
+            min_nontrivial: 150,
+            exhaustive: Some(true),
+            extra: serde_json::Map::new(),
+        },
+    )
+}
